@@ -38,7 +38,7 @@ class Ctx:
 
     def __init__(self, prefix=(), max_depth=400, timeout_ms=20000):
         self.solver = z3.Solver()
-        self.solver.set("timeout", timeout_ms)
+        self.solver.set("timeout", 1500)
         self.prefix = list(prefix)
         self.pos = 0
         self.trace = []  # [(cond, taken, other_feasible)]
@@ -51,6 +51,12 @@ class Ctx:
         self.log = []  # harness-level event log (e.g. logging records)
         self.forks = 0
         self._divs = {}
+        self.purify_div = False
+        self.subst = []
+        self.nl_mode = False
+        self.fresh_timeout_ms = 30000
+        self.inc_timeout_ms = 2000
+        self._nq_pur = 0
 
     # -- assumptions
     def assume(self, cond):
@@ -70,8 +76,27 @@ class Ctx:
         self.t_solver += time.time() - t0
         return r
 
+    def _fresh_check(self, extra):
+        """non-incremental solver (nlsat) for nonlinear branch conditions"""
+        s = z3.Solver()
+        s.set("timeout", self.fresh_timeout_ms)
+        for a in self.assumptions:
+            s.add(a)
+        for p in self.path_condition():
+            s.add(p)
+        s.add(extra)
+        t0 = time.time()
+        self.nq += 1
+        r = s.check()
+        self.t_solver += time.time() - t0
+        return r
+
     def branch(self, cond):
-        cond = z3.simplify(cond)
+        if self.subst:
+            # proven lemmas "complex term == simple term": rewrite before deciding (sound: each was
+            # proved under this path's assumptions)
+            cond = z3.substitute(cond, *self.subst)
+        cond = z3.simplify(cond, som=True)
         if z3.is_true(cond):
             return True
         if z3.is_false(cond):
@@ -82,8 +107,20 @@ class Ctx:
         else:
             if len(self.trace) >= self.max_depth:
                 raise PathLimit("max path depth exceeded")
-            rt = self._check(cond)
-            rf = self._check(z3.Not(cond))
+            if self.nl_mode:
+                rt = self._fresh_check(cond)
+                rf = self._fresh_check(z3.Not(cond))
+            else:
+                rt = self._check(cond)
+                if rt == z3.unknown:
+                    self.nl_mode = True  # the incremental core gave up once: stay on fresh (nlsat) solvers
+                    rt = self._fresh_check(cond)
+                    rf = self._fresh_check(z3.Not(cond))
+                else:
+                    rf = self._check(z3.Not(cond))
+                    if rf == z3.unknown:
+                        self.nl_mode = True
+                        rf = self._fresh_check(z3.Not(cond))
             if rt == z3.unknown or rf == z3.unknown:
                 raise ModelGap("unknown feasibility of a branch condition")
             if rt == z3.sat:
@@ -268,7 +305,7 @@ class SymBool:
         return SymReal(z3.If(self.t, z3.RealVal(1), z3.RealVal(0)), nl=self.nl)
 
     def __repr__(self):
-        return f"B({self.t})"
+        return f"B(term#{self.t.hash() & 0xFFFFFF:06x})"
 
 
 # --------------------------------------------------------------------------- SymReal
@@ -399,6 +436,12 @@ class SymReal(numbers.Real):
             return self._mk(o, self.t / o.t, False)
         if _CTX is not None:
             _CTX.divisor(o.t)
+            if _CTX.purify_div:
+                # purified quotient: fresh q with q*b == a keeps nested divisions polynomial
+                _CTX._nq_pur += 1
+                q = z3.Real(f"quot{_CTX._nq_pur}")
+                _CTX.assume(q * o.t == self.t)
+                return self._mk(o, q, True)
         return self._mk(o, self.t / o.t, True)
 
     def __rtruediv__(self, o):
@@ -541,7 +584,14 @@ class SymReal(numbers.Real):
         raise Concretised("mod")
 
     def __repr__(self):
-        return f"S({self.t})"
+        # never pretty-print big terms (flodym puts values into error messages)
+        if self.const is not None:
+            return f"S({self.const})"
+        if z3.is_const(self.t):
+            return f"S({self.t.decl().name()})"
+        return f"S(term#{self.t.hash() & 0xFFFFFF:06x})"
+
+    __str__ = __repr__
 
     def __format__(self, spec):
         return repr(self)
